@@ -219,6 +219,29 @@ Theorem C17_split_sort_stable : forall io k l,
 Proof. exact sort_rows_stable. Qed.
 Print Assumptions C17_split_sort_stable.
 
+(* ---- operation lists: every operation sees only the (positional, label-free)
+   table returned by its predecessor; with the per-operation meaning theorems
+   above this fixes the meaning of every list.  That the implementation's frames
+   really are positional after every step (row labels 0..n-1) is checked on the
+   implementation by the correspondence run (clause index-contract). ---- *)
+Theorem C17_run_operations_app : forall fx s1 s2 t,
+  snd (run_operations fx (s1 ++ s2) t)
+  = match snd (run_operations fx s1 t) with
+    | Ok t1 => snd (run_operations fx s2 t1)
+    | Exn e => Exn e
+    end.
+Proof. exact run_operations_app. Qed.
+Print Assumptions C17_run_operations_app.
+
+Theorem C17_run_operations_one : forall fx st t,
+  snd (run_operations fx [st] t)
+  = match snd (do_op fx st (prep_data t)) with
+    | Ok t1 => if wfb (post_proc_data t1) then Ok (post_proc_data t1) else Exn Unmodelled
+    | Exn e => Exn e
+    end.
+Proof. exact run_operations_one. Qed.
+Print Assumptions C17_run_operations_one.
+
 (* ---- the caller's table is unchanged (true by construction: tables are values) ---- *)
 Theorem C17_input_unchanged : forall fx sts input, fst (run_on_input fx sts input) = input.
 Proof. exact input_unchanged. Qed.
